@@ -123,12 +123,15 @@ def h_cl(B, dom_kind, nsamples, model, named):
         B.assume_all([~(v == 0) for v in np.asarray(lh.normalized_residual(s_).val.val, dtype=object).reshape(-1)])
     sl = ift.SampleList(samples)
     _, res = ex.minisanity(lh, sl, terminal_colors=False, return_values=True)
+    # the running mean multiplies by the float constants 1./k: exact for k <= 2, rounded for k >= 3 (then compared by the
+    # solver under a relative tolerance of 1e-9, with the path condition)
+    cmp = B.eq if nsamples <= 2 else B.close_under
     # reference: the likelihood's own normalized residual of every sample, entry by entry
     dkey = ("lh" if named else "<None>")
     rows = [list(np.asarray(lh.normalized_residual(s).val.val, dtype=object).reshape(-1)) for s in samples]
     chi, mean, used, ign = _ref_stats(B, rows)
-    B.eq("data residuals: reduced chi^2 == sample average of sum|r|^2 / #used", [res["redchisq"]["data_residuals"][dkey]["mean"]], [chi])
-    B.eq("data residuals: mean == sample average of sum r / #used", [res["scmean"]["data_residuals"][dkey]["mean"]], [mean])
+    cmp("data residuals: reduced chi^2 == sample average of sum|r|^2 / #used", [res["redchisq"]["data_residuals"][dkey]["mean"]], [chi])
+    cmp("data residuals: mean == sample average of sum r / #used", [res["scmean"]["data_residuals"][dkey]["mean"]], [mean])
     B.is_true("data residuals: #dof is the number of used entries", int(res["ndof"]["data_residuals"][dkey]) == used)
     B.is_true("data residuals: #ignored is reported separately", int(res["nigndof"]["data_residuals"][dkey]) == ign)
     # the normalised residual itself: sqrt(N^-1) (model(s) - d) up to the documented sign
@@ -140,8 +143,8 @@ def h_cl(B, dom_kind, nsamples, model, named):
         lk = "<None>" if k is None else k
         rows = [list(np.asarray((s if k is None else s[k]).val.val, dtype=object).reshape(-1)) for s in samples]
         chi, mean, used, ign = _ref_stats(B, rows)
-        B.eq(f"latent {lk}: reduced chi^2 == sample average of sum|x|^2 / #used", [res["redchisq"]["latent_variables"][lk]["mean"]], [chi])
-        B.eq(f"latent {lk}: mean == sample average of sum x / #used", [res["scmean"]["latent_variables"][lk]["mean"]], [mean])
+        cmp(f"latent {lk}: reduced chi^2 == sample average of sum|x|^2 / #used", [res["redchisq"]["latent_variables"][lk]["mean"]], [chi])
+        cmp(f"latent {lk}: mean == sample average of sum x / #used", [res["scmean"]["latent_variables"][lk]["mean"]], [mean])
         B.is_true(f"latent {lk}: #dof is the number of used entries", int(res["ndof"]["latent_variables"][lk]) == used)
         B.is_true(f"latent {lk}: #ignored is reported separately", int(res["nigndof"]["latent_variables"][lk]) == ign)
 
@@ -214,8 +217,7 @@ def scenarios(tier, seed):
              ("re", {"which": "smap", "nsamples": 2, "func": "residual"}),
              ("re", {"which": "vmap", "nsamples": 2, "func": "complex"})]
     thorough = [("cl", {"dom_kind": "multi", "nsamples": 2, "model": "id", "named": True}),
-                ("cl", {"dom_kind": "multi", "nsamples": 3, "model": "diag", "named": False}),
-                ("cl", {"dom_kind": "single", "nsamples": 3, "model": "diag", "named": True}),
+                ("cl", {"dom_kind": "single", "nsamples": 2, "model": "id", "named": False}),
                 ("re", {"which": "lmap", "nsamples": 3, "func": "residual"}),
                 ("re", {"which": "smap", "nsamples": 3, "func": "none"}),
                 ("re", {"which": "vmap", "nsamples": 3, "func": "none"})]
@@ -236,7 +238,7 @@ META = {
     "functions_encoded": ["nifty.cl.extra.minisanity", "nifty.cl.probing.StatCalculator", "nifty.cl.minimization.sample_list.SampleList.iterator",
                           "nifty.cl.operators.energy_operators.GaussianEnergy.normalized_residual",
                           "nifty.re.minisanity.{reduced_residual_stats,_residual_params}", "nifty.re.likelihood_impl.Gaussian.normalized_residual"],
-    "bounds": {"samples": "1-2 (3 thorough)", "entries per key": "1-2"},
+    "bounds": {"samples": "classic 1-2 (3 samples: the rounded constant 1./3 of the running mean needs tolerant solver obligations that do not finish within 20 min), JAX 2-3", "entries per key": "1-2"},
     "stubs": ["nifty.cl.extra._tableentries (string formatting of the table) returns '' in the symbolic run",
               "np.sum over symbolic truth values counts by path decisions"],
     "outside": ["NaN entries (no symbolic NaN): the NaN-ignoring branch is exercised with zero entries only", "complex residuals in the classic diagnostic",
